@@ -71,7 +71,19 @@ def run(chk):
         for cp in cps:
             if not cp.args:
                 continue
-            for leaf in factor_leaves(cp.args[0]):
+            def expand(expr, seen=()):
+                out = []
+                for lf in factor_leaves(expr):
+                    # a local temporary holding part of the factor: look through its (last) definition
+                    if isinstance(lf, ast.Name) and lf.id in fr.defs and fr.defs[lf.id] is not None and lf.id not in seen:
+                        v0 = fr.expr_abs.get(id(lf))
+                        d = fr.defs[lf.id]
+                        if isinstance(v0, Arr) and not v0.data and isinstance(d, (ast.BinOp, ast.UnaryOp)):
+                            out.extend(expand(d, seen + (lf.id,)))
+                            continue
+                    out.append(lf)
+                return out
+            for leaf in expand(cp.args[0]):
                 v = fr.expr_abs.get(id(leaf))
                 if v is None or v is TOP:
                     raise AnalysisError(f"{name}: factor operand {norm(leaf)} could not be classified")
